@@ -27,7 +27,18 @@ for root, _, files in os.walk(os.path.join(src, 'nfc')):
             # every unit with the names of the functions nested in it (nfcsa/inline.py: what is not listed here is new)
             allunits[key] = sorted(x.name for x in ast.walk(f) if x is not f and isinstance(x, ast.FunctionDef))
         d['__units__'] = allunits
+        # module level and class level names bound by assignment (nfcsa/inline.py: a constant that is not listed here is new)
+        names = set()
+        for node in ast.walk(tree):
+            if isinstance(node, (ast.Module, ast.ClassDef)):
+                for st in node.body:
+                    if isinstance(st, ast.Assign):
+                        for t in st.targets:
+                            for x in ast.walk(t):
+                                if isinstance(x, ast.Name):
+                                    names.add(x.id)
+        d['__names__'] = sorted(names)
         out[name] = d
 with open(alpha.REF_FILE, 'w') as f:
     json.dump(out, f, indent=0, sort_keys=True)
-print('%d modules, %d functions with locals, %d units' % (len(out), sum(len(v) - 1 for v in out.values()), sum(len(v['__units__']) for v in out.values())))
+print('%d modules, %d functions with locals, %d units' % (len(out), sum(len(v) - 2 for v in out.values()), sum(len(v['__units__']) for v in out.values())))
